@@ -69,6 +69,18 @@ Fixpoint level_steps (levels changes : list term) (i : nat) : list (nat * term *
   | _, _ => []
   end.
 
+(* concurrent buffer: a change time equal to the previous one leaves the level unchanged, a new one adds the value of
+   every quantity function at that time *)
+Fixpoint conc_steps (fns : list fname) (prev : option term) (l : list (nat * term * term * term)) : list form :=
+  match l with
+  | [] => []
+  | (_, l0, l1, c) :: r =>
+      let jump := FEq l1 (TAdd [l0; TAdd (map (fun f => TApp f c) fns)]) in
+      (match prev with
+       | None => jump
+       | Some cp => FIte (FEq c cp) (FEq l1 l0) jump end) :: conc_steps fns (Some c) r
+  end.
+
 Definition buffer_block (b : bufrec) : list form :=
   let id := b_id b in
   let mk := fun k => TV (VAux (OwBuf id) k) in
@@ -85,16 +97,7 @@ Definition buffer_block (b : bufrec) : list form :=
         let fns := map (fun '(t, _) => FnUnload id t) (b_unload b) ++ map (fun '(t, _) => FnLoad id t) (b_load b) in
         map (fun '(t, q) => FFunPoint (FnUnload id t) (TV (VStart t)) (- q)) (b_unload b)
         ++ map (fun '(t, q) => FFunPoint (FnLoad id t) (TV (VEnd t)) q) (b_load b)
-        ++ (let steps := level_steps levels changes 0 in
-            (fix go (prev : option term) (l : list (nat * term * term * term)) : list form :=
-               match l with
-               | [] => []
-               | (_, l0, l1, c) :: r =>
-                   let jump := FEq l1 (TAdd [l0; TAdd (map (fun f => TApp f c) fns)]) in
-                   (match prev with
-                    | None => jump
-                    | Some cp => FIte (FEq c cp) (FEq l1 l0) jump end) :: go (Some c) r
-               end) None steps)
+        ++ conc_steps fns None (level_steps levels changes 0)
       else
         map (fun '(t, q) => FArrFix id (TV (VStart t)) (TC (- q))) (b_unload b)
         ++ map (fun '(t, q) => FArrFix id (TV (VEnd t)) (TC q)) (b_load b)
